@@ -4,6 +4,9 @@
                          datagram sequences over a 22-class alphabet from 6 initial states, reference model in lock-step
   * closed_two_handlers: two real handlers wired back to back through an in-flight multiset; all injection choices
                          (budget-bounded) x all delivery orders; every run must go quiet (acks are never answered)
+  * maintenance_task_schedules: the same handler with its periodic_maintenance() coroutine running as a stock asyncio.Task on a
+                         virtual event loop; the explorer owns the ready queue, the timer heap and the clock: all orders of datagrams,
+                         loop callbacks and timer expiries to a depth (schedules, not only datagram sequences)
   * malformed_depth1   : every prefix truncation and every single-bit corruption of every alphabet datagram delivered
                          in each of 4 reachable states: never raises, never answers garbage with a payload
 """
@@ -356,6 +359,123 @@ class Single(explore.System):
 
 
 # ------------------------------------------------------------------------------------------------
+# 1b. the handler with its periodic_maintenance() coroutine running as a real asyncio Task on a virtual event loop
+# ------------------------------------------------------------------------------------------------
+from mc.vloop import VLoop  # noqa: E402
+
+CLOCK0 = 1_700_000_000.0
+
+
+class Maint(Single):
+    """Schedules, not only datagram sequences: `periodic_maintenance()` is what an application runs next to the endpoint
+    (tools/hrnp_client.py does).  It is started as a stock asyncio.Task on a VLoop whose ready queue and timer heap the explorer pops by
+    hand, so between any two loop callbacks a datagram (or an endpoint replacement) may arrive - exactly the places where the real loop
+    could deliver one.  The clock the library reads (datetime.now) is the loop's virtual clock.  Events:
+
+      <datagram class>    one datagram_received call, Single's oracle unchanged (answers are the call's synchronous sends)
+      LOOP_STEP           the loop runs its next ready callback (a task step, a timer's set_result, ...)
+      TIMER               time passes until the earliest timer is due; due timers become ready (nothing runs yet)
+      IDLE_70S / _400S    a long silence: the loop runs (callbacks and timers) until 70 s / 400 s of virtual time have passed -
+                          longer than T_HEARTBEAT * T_NUMBEAT (60 s) and than the renew time of a registration (300 s)
+
+    Whatever the loop does on its own must leave the statement's observables alone: the connected flag still is 'last connect/close
+    seen', the registry still holds what each radio's last message implies, the own sequence number fits 16 bits, and nothing the loop
+    sends is an acknowledgement (every message has been answered once already, in the call that handled it)."""
+
+    INITS = [(0, False, False), (0, True, False), (0xFFFE, False, True), (0, True, True)]
+    KINDS = ["CONNECT", "CLOSE", "CONNECT_ACK", "CLOSE_ACK", "HEARTBEAT", "ACK", "REG_A", "OFF_A", "REG_B", "RCP_NOOPT", "BADMAGIC"]
+    SECOND_PEER_KINDS = ["CLOSE", "REG_A"]
+    LOOP_EVENTS = ("LOOP_STEP", "TIMER", "IDLE_70S", "IDLE_400S")
+
+    def __init__(self, init):
+        SEAMS.clock = CLOCK0
+        super().__init__(init)
+        self._init = init
+        self._path = []
+        self.loop = VLoop()
+        with self.loop.running():
+            self.task = self.loop.create_task(self.impl.periodic_maintenance())
+        self.loop_sent = 0
+
+    def clone(self):  # a live coroutine cannot be copied: re-build from the path on fresh objects
+        c = type(self)(self._init)
+        for ev in self._path:
+            c.step(ev)
+        return c
+
+    def __del__(self):
+        try:
+            self.loop.shutdown([self.task])
+        except Exception:  # noqa: BLE001
+            pass
+
+    def events(self):
+        evs = list(self.KINDS) + [k + "@2" for k in self.SECOND_PEER_KINDS] + ["ENDPOINT_REPLACED"]
+        if self.loop.ready_count():
+            evs.append("LOOP_STEP")
+        if self.loop.timer_count():
+            evs.append("TIMER")
+        if self.loop.ready_count() or self.loop.timer_count():
+            evs += ["IDLE_70S", "IDLE_400S"]
+        return evs
+
+    def step(self, kind):
+        self._path.append(kind)
+        SEAMS.clock = CLOCK0 + self.loop.time()
+        if kind not in self.LOOP_EVENTS:
+            with self.loop.running():
+                viol = super().step(kind)
+            return viol
+        viol = list(self.pending)
+        self.pending = []
+        self.tr.sent = []
+        case = {"event": kind, "virtual_time": self.loop.time(), "connected_before": self.impl.hstrp_connected}
+        ran = 0
+        try:
+            if kind == "LOOP_STEP":
+                ran = 1 if self.loop.step() else 0
+            elif kind == "TIMER":
+                self.loop.advance()
+            else:
+                until = self.loop.time() + (70.0 if kind == "IDLE_70S" else 400.0)
+                while ran < 2000:
+                    if self.loop.ready_count():
+                        SEAMS.clock = CLOCK0 + self.loop.time()
+                        self.loop.step()
+                        ran += 1
+                        continue
+                    nt = self.loop.next_timer()
+                    if nt is None or nt > until:
+                        break
+                    self.loop.advance()
+                self.loop._vt = max(self.loop._vt, until)
+        except Exception as e:  # noqa: BLE001 - a callback's exception never leaves Handle._run; this would be the harness or the loop
+            viol.append(("exception_out_of_the_event_loop:" + exc_sig(e), {**case, "exc": repr(e)}))
+        SEAMS.clock = CLOCK0 + self.loop.time()
+        outs = [o for o, _ in self.tr.sent]
+        self.loop_sent += len(outs)
+        case["sent"] = [o.hex() for o in outs[:6]]
+        if any((parse_out(o) or {}).get("type", 0) & T_ACK for o in outs):
+            viol.append(("acknowledgement_sent_by_the_event_loop_not_by_the_handling_of_a_message", case))
+        if self.impl.hstrp_connected != self.m_connected:
+            viol.append(("connected_flag_changed_without_a_connect_or_close", {**case, "flag": self.impl.hstrp_connected, "model": self.m_connected}))
+            self.m_connected = self.impl.hstrp_connected
+        if dict(registry_view(self.impl)) != self.m_registry:
+            viol.append(("registry_changed_without_a_message", {**case, "registry": registry_view(self.impl), "model": self.m_registry}))
+            self.m_registry = dict(registry_view(self.impl))
+        if not (0 <= self.impl.sn <= 0xFFFF):
+            viol.append(("own_sequence_number_out_of_16_bits", {**case, "sn": self.impl.sn}))
+        self.obs = (kind, tuple((parse_out(o) or {}).get("type") for o in outs[:4]), len(outs) if len(outs) < 4 else "many", ran if ran < 4 else "many",
+                    bool(self.loop.errors), self.task.done())
+        return viol
+
+    def key(self):
+        now = self.loop.time()
+        return (super().key(), now, self.loop.ready_count(), tuple(sorted(round(h._when - now, 6) for h in self.loop._scheduled if not h._cancelled)),
+                self.task.done(), len(self.loop.errors))
+
+
+# ------------------------------------------------------------------------------------------------
 # 2. closed system of two handlers
 # ------------------------------------------------------------------------------------------------
 ADDR = {"A": ("192.0.2.1", 30001), "B": ("192.0.2.2", 30001)}
@@ -528,6 +648,9 @@ WHAT = {
     "handlers_keep_answering_each_other": "two handlers wired back to back do not go quiet after the last injected datagram",
     "connected_flag_differs_from_history": "hstrp_connected is not 'last connect/close seen was a connect'",
     "registry_differs_from_history": "registry is not the state implied by each radio's last registration/offline message",
+    "connected_flag_changed_without_a_connect_or_close": "the event loop (maintenance task / a timer), not a connect or close message, changed hstrp_connected",
+    "registry_changed_without_a_message": "the event loop (maintenance task / a timer), not a radio's message, changed the registry",
+    "acknowledgement_sent_by_the_event_loop_not_by_the_handling_of_a_message": "an acknowledgement was sent from a loop callback: every message is acknowledged once, in the call that handles it",
 }
 
 
@@ -556,6 +679,17 @@ def run(only=None):
         s.extra["alphabet"] = {k: v.hex() for k, v in DG.items()}
         s.done()
         rep.bounds["single_handler_bfs"] = {"depth_completed": res.depth_completed, "states": res.states}
+    if not only or "maintenance_task_schedules" in only:
+        d = 7 if thorough else 5
+        s = rep.sub("maintenance_task_schedules",
+                    rule=f"the handler's periodic_maintenance() coroutine as a stock asyncio.Task on a virtual event loop (ready queue and timer heap popped by the explorer): "
+                         f"all sequences to depth {d} over {len(Maint.KINDS) + len(Maint.SECOND_PEER_KINDS) + 1} datagram / endpoint events + LOOP_STEP + TIMER + two long-silence macro events, "
+                         f"from {len(Maint.INITS)} initial states; states rebuilt by replay on a fresh loop; non-trivial = distinct observations")
+        res = explore.bfs(Maint, max_depth=d, log=rep.log)
+        explore.feed(s, res, WHAT, name="maint", rep=rep)
+        s.extra["schedules"] = {"scheduling_points": "every loop callback boundary", "deviation_bound": "none (all orders to the depth)", "depth": res.depth_completed}
+        s.done()
+        rep.bounds["maintenance_task_schedules"] = {"depth_completed": res.depth_completed, "states": res.states}
     if not only or "closed_two_handlers" in only:
         cls = Closed3 if thorough else Closed
         s = rep.sub("closed_two_handlers", rule=f"two real handlers back to back, <= {cls.BUDGET} injected datagrams from {len(INJECT)} classes, all delivery orders, "
@@ -629,7 +763,7 @@ def replay(doc):
                 print("  raised", repr(e))
                 bad += 1
             continue
-        cls = {"single_handler_bfs": Single, "closed_two_handlers": Closed3}[doc["check"]]
+        cls = {"single_handler_bfs": Single, "closed_two_handlers": Closed3, "maintenance_task_schedules": Maint}[doc["check"]]
         init = c["init"]
         s = cls(tuple(init) if isinstance(init, list) else init)
         for ev in c["path"]:
